@@ -443,3 +443,43 @@ def run (s : St) : List Ev → Option St
 def St.finished (s : St) : Prop := s.inDriver = false ∧ (s.fut = .ready ∨ s.fut = .dropped)
 
 end Compio.Produced
+
+/-! ## An operation that waits on k descriptors (polling driver, `Splice`: source readable AND destination writable)
+
+`poll::Driver::push` registers one interest per wait descriptor, each holding a clone of the key;
+`Driver::cancel` calls `cancel_one` for EVERY descriptor of the op and sends one cancelled entry if any
+interest was removed. The op struct — and with it its k `SharedFd` clones — is dropped when the last key
+clone goes (future, interests, completed entry). -/
+namespace Compio.MultiWait
+
+structure St where
+  /-- interest registry: (descriptor, key) -/
+  reg : List (Nat × Nat)
+  /-- completed queue: keys of the entries waiting to be reaped -/
+  completed : List Nat
+  /-- keys held by a live future -/
+  futures : List Nat
+  deriving Repr
+
+def init : St := { reg := [], completed := [], futures := [] }
+
+/-- number of key clones alive: the op (and its k descriptor references) lives while this is positive -/
+def keyRefs (s : St) (key : Nat) : Nat :=
+  (s.reg.filter (·.2 == key)).length + s.completed.count key + s.futures.count key
+
+def push (s : St) (key : Nat) (fds : List Nat) : St :=
+  { s with reg := s.reg ++ fds.map (·, key), futures := key :: s.futures }
+
+def mine (key : Nat) (fds : List Nat) (e : Nat × Nat) : Bool := e.2 == key && fds.contains e.1
+
+/-- `Driver::cancel`: every interest of the op is removed; one cancelled entry if there was any -/
+def cancel (s : St) (key : Nat) (fds : List Nat) : St :=
+  { s with reg := s.reg.filter (fun e => !mine key fds e),
+           completed := if s.reg.any (mine key fds) then key :: s.completed else s.completed }
+
+def dropFuture (s : St) (key : Nat) : St := { s with futures := s.futures.erase key }
+
+/-- the driver pops the completed entry and drops its key -/
+def reap (s : St) (key : Nat) : St := { s with completed := s.completed.erase key }
+
+end Compio.MultiWait
